@@ -89,8 +89,44 @@ StaticCase<K> gen_seam_case(Rng &r, size_t eps, size_t maxn) {
     return sc;
 }
 
+/// Band-tight UPPER levels: the data is a sequence of "units" (each forced to be one leaf segment: dense units alternate
+/// with sparse ones), grouped so that the leaf-segment keys form a staircase in (key, segment index) space - runs of about
+/// 2*eps_rec consecutive segments close together, then a jump. Upper-level models then sit on the +-eps_rec band, which is
+/// where the routing window and the binary search are exercised at their limits.
 template<class K>
-StaticCase<K> make_static_case(Ctx &c, size_t eps, bool chunked, size_t maxn_small, size_t maxn_big) {
+StaticCase<K> gen_nested_staircase(Rng &r, size_t eps, size_t eps_rec, size_t max_keys) {
+    using D = UDom<K>;
+    StaticCase<K> sc;
+    sc.family = "nested_staircase";
+    sc.threads = 1;
+    const uint64_t R = D::R;
+    size_t unit = 2 * eps + 3 + r.below(4);
+    std::vector<uint64_t> u;
+    uint64_t cur = r.chance(1, 2) ? 0 : r.below(R / 4);
+    bool dense = true;
+    while (u.size() + unit < max_keys && cur < R - (uint64_t(1) << 20)) {
+        size_t G = std::max<int64_t>(2, int64_t(2 * eps_rec) + int64_t(r.below(7)) - 3); // units per group
+        if (r.chance(1, 8)) G = 1 + r.below(4 * eps_rec + 4);
+        for (size_t g = 0; g < G && u.size() + unit < max_keys; ++g) {
+            uint64_t step = dense ? 1 : 40 + r.below(20);
+            for (size_t j = 0; j < unit; ++j) {
+                u.push_back(cur);
+                cur = sat_add(cur, step, R);
+            }
+            cur = sat_add(cur, dense ? 3 : 1, R);
+            dense = !dense;
+        }
+        // the jump between groups: proportional to the group's key span so that the segment-key staircase has tall steps
+        uint64_t span = uint64_t(G) * unit * 30;
+        cur = sat_add(cur, span * r.pick<uint64_t>({1, 2, 5, 50}) + r.below(span + 1), R);
+    }
+    if (u.empty()) u.push_back(0);
+    for (auto x : u) sc.keys.push_back(D::to_key(std::min(x, R)));
+    return sc;
+}
+
+template<class K>
+StaticCase<K> make_static_case(Ctx &c, size_t eps, bool chunked, size_t maxn_small, size_t maxn_big, size_t eps_rec = 0) {
     StaticCase<K> sc;
     if (c.given) {
         sc.keys = c.given->vec<K>("keys");
@@ -114,6 +150,12 @@ StaticCase<K> make_static_case(Ctx &c, size_t eps, bool chunked, size_t maxn_sma
         size_t chunk = n / size_t(sc.threads);
         for (int i = 1; i < sc.threads; ++i) sc.seams.push_back(size_t(i) * chunk);
         return sc;
+    }
+    if constexpr (std::is_integral_v<K>) {
+        if (eps_rec >= 1 && sizeof(K) >= 4 && !c.prop("C17") && c.rng.chance(1, eps_rec >= 16 ? 6 : 20)) {
+            size_t budget = std::min<size_t>((2 * eps + 6) * (2 * eps_rec + 4) * (6 + c.rng.below(20)), c.thorough() ? 400000 : 120000);
+            return gen_nested_staircase<K>(c.rng, eps, eps_rec, std::max<size_t>(budget, 2000));
+        }
     }
     sc.threads = 1;
     size_t maxn = maxn_small;
@@ -390,7 +432,7 @@ void pgm_case(Ctx &c) {
     using Idx = pgm::PGMIndex<K, Eps, EpsRec, Floating>;
     size_t big = c.thorough() ? (size_t(1) << 18) : (size_t(1) << 16);
     if (c.thorough() && c.case_idx % 16 == 15) big = size_t(1) << 20;
-    auto sc = make_static_case<K>(c, Eps, Chunked, c.prop("C07") ? 20000 : 5000, big);
+    auto sc = make_static_case<K>(c, Eps, Chunked, c.prop("C07") ? 20000 : 5000, big, EpsRec);
     if constexpr (std::is_floating_point_v<K>) {
         if (!float_domain_ok<K, Floating>(sc.keys)) {
             c.count("float_domain_rejected");
